@@ -18,6 +18,7 @@ ASSUMPTIONS = ["counts, offsets below the output value and the per-height audit 
 
 
 def run(ctx):
+  _r4_6(ctx)
   F = ctx.facts
   T = TableId(F)
   ctx.rule('R4.1', 'the only body that inserts into OUTPOINT_TO_UTXO_ENTRY is Updater::commit; the only body that removes from it is the input closure of Updater::index_utxo_entries')
@@ -227,3 +228,22 @@ def _is_returned(body, op):
   slr = body.slice_of([op], through_calls=False)
   named = {l for l in slr.locals if body.local_name(l)}
   return bool(named & sl0.locals)
+
+
+def _r4_6(ctx):
+  """inscriptions are indexed from the first inscription height on, inclusive"""
+  from ..core import where
+  from ..guards import conjuncts
+  from ..intervals import fmt_desc
+  ctx.rule('R4.6', 'Updater::index_utxo_entries: index_inscriptions = (self.height >= first_inscription_height()) && self.index.index_inscriptions — the block at exactly the first inscription height is inscription-indexed (no envelope of it is dropped)')
+  b = ctx.body('R4.6', 'ord::index::updater::Updater::index_utxo_entries')
+  if b is None:
+    return
+  ls = b.locals_named('index_inscriptions')
+  if not ctx.anchor('R4.6', 'local index_inscriptions', len(ls) == 1, b.n):
+    return
+  cj = conjuncts(b, {'c': {'l': ls[0]}}) or []
+  atoms = sorted(fmt_desc(a) for a, _ in cj)
+  want = sorted(['Ge(self.height,Settings::first_inscription_height(self.index.settings))', 'self.index.index_inscriptions'])
+  alt = sorted(['Le(Settings::first_inscription_height(self.index.settings),self.height)', 'self.index.index_inscriptions'])
+  ctx.ob('R4.6', b.n, 'index_inscriptions = height >= first_inscription_height() ∧ index.index_inscriptions', atoms in (want, alt), f'{atoms}', where(b, b.line))
